@@ -54,6 +54,14 @@ Qed.
    the triangle inequality (with a monotone addition), and r > 0, the result is exactly the set of
    points with distance <= r, each with its true index and distance.  `wf_root` is the boolean that the
    correspondence check evaluates on every tree the implementation builds. *)
+(* NOTE (exact arithmetic): the proof uses the triangle inequality EXACTLY, in the step `prune_sound`:
+   d(q, node) <= d(q, x) + d(x, node) <= r + max_dist for a point x below the node with d(q, x) <= r.  For
+   binary64 the three distances and the sum r + max_dist are each rounded, so the hypothesis
+   `leb (dist a c) (plus (dist a b) (dist b c)) = true` can fail by an ulp and the theorem does not transfer
+   to a boundary point: KNOWN_FINDINGS covertree-radius-boundary-rounding, witness (Euclid) data
+   [(0,4); (0,0); (1,3); (0,2)], query (4,0), r = 4.242640687119285 = d(q, (1,3)) bit for bit:
+   CoverTree::find_radius returns {1}, the exhaustive scan {1, 2}.  Points strictly inside the radius by more
+   than 8 ulp of the pruning sum are always returned (searched per run, harness/src/bin/c04.rs). *)
 Theorem C04_cover_radius_exact :
   forall (D : Type) (ltb leb : D -> D -> bool) (plus : D -> D -> D), preorder ltb leb ->
   (forall a b c d, leb a b = true -> leb c d = true -> leb (plus a c) (plus b d) = true) ->
